@@ -32,8 +32,10 @@ def norm(d, proto):
 
 def main(run):
     run.cov["trusted_base"] = vlib.TRUSTED_COMMON + [
-        "model: Wire/OptCodec.v Wire/Pdu.v Wire/Build.v (abstract builder; the in-place byte "
-        "patches of coap_insert_option are tied, not transcribed)"]
+        "model: Wire/OptCodec.v Wire/Pdu.v Wire/Build.v (abstract builder) and Wire/InsertBytes.v "
+        "(the in-place byte edit of coap_insert_option transcribed branch by branch, proved to "
+        "refine the abstract insert - C01_insert_bytes_refine - and tied to the C on parsed "
+        "datagrams: command bins)"]
     run.assumptions = ["allocation never fails (C18 covers failures)",
                        "option values <= 65804 bytes (the encoder wraps silently above; outside the property)"]
     run.prove()
@@ -48,6 +50,15 @@ def main(run):
     for i in range(n):
         hdr, ops = gen_wire.gen_build_case(r, allow_big=(i % 10 == 0))
         cases.append((hdr, ops, gen_wire.line_of(hdr, ops)))
+    # options+payload length exactly at every boundary of the four RFC 8323 Len forms
+    nf = 0
+    for rep in range(2 if run.tier == "quick" else 12):
+        for tgt in gen_wire.FRAME_BND:
+            for proto in ("tcp", "tcp", "ws", "udp")[:2 if tgt > 1000 and run.tier == "quick" and rep else 4]:
+                hdr, ops = gen_wire.gen_framelen_case(r, tgt, proto)
+                cases.append((hdr, ops, gen_wire.line_of(hdr, ops)))
+                nf += 1
+    run.cov["frame_length_boundary_cases"] = nf
     lines = [c[2] for c in cases]
     om, oc, crashes = tie.run_both(model, drv, lines)
     run.cov["driver_crashes"] = len(crashes)
@@ -103,5 +114,18 @@ def main(run):
         nbad += 1
         run.violation("option header codec differs from the proved model (leaf sweep)",
                       "case: %s\nmodel: %s\nimpl : %s\n" % (ln, a, b), tag="sweep%d" % nbad)
+    # byte-level tie of coap_insert_option (Wire/InsertBytes.v, theorem C01_insert_bytes_refine):
+    # the in-place edit on parsed datagrams, all six header-patch classes
+    bl = [gen_wire.gen_bins_case(r) for _ in range(1500 if run.tier == "quick" else 40000)]
+    bm, bc, _ = tie.run_both(model, drv, bl)
+    bbad = [(bl[i], bm[i], bc[i]) for i in range(len(bl)) if bm[i] != bc[i]]
+    from collections import Counter
+    run.cov["insert_bytes_tie"] = {"cases": len(bl), "disagreements": len(bbad),
+                                   "outcomes": dict(Counter("insert" if o.startswith("r=") else o.split(" ")[0] for o in bc))}
+    run.cov["evaluations"] += len(bl)
+    for ln, a, b in bbad[:2]:
+        nbad += 1
+        run.violation("coap_insert_option's in-place edit differs from the proved byte-level model",
+                      "case: %s\nmodel: %s\nimpl : %s\n" % (ln, a, b), tag="bins%d" % nbad)
     run.cov["disagreements"] = nbad
     run.cov["corpus_cases"] = len(corpus)
